@@ -22,6 +22,7 @@ EXPLANATION = (
     "uses and candidate numbers map through i+1; to_csv writes one row per ballot with exactly the "
     "declared fields. Does NOT decide fidelity for all files (pandas semantics are trusted)."
 )
+EXPLANATION += ' Also decided (prerequisites and later clauses): a row of a Scottish file is stored iff it is non-empty after its empty cells were removed (decided on the reader loop by role).'
 ASSUMPTIONS = ["pandas.read_csv / DataFrame.groupby(dropna=False) / iloc semantics (trusted)", "csv.DictWriter writes one line per writerow (trusted)"]
 TRUSTED = ["pandas", "csv"]
 
